@@ -72,7 +72,7 @@ type ErrPlan struct {
 }
 
 type DetailPlan struct {
-	Kind int // 0 StringValue 1 BytesValue 2 Duration 3 Struct
+	Kind int // 0 StringValue 1 BytesValue 2 Duration 3 Struct 4 an Any whose type is not linked into the binary
 	Data []byte
 }
 
